@@ -17,6 +17,9 @@ type Wire struct {
 	cond   *sync.Cond
 	buf    [2][]byte // buf[d]: bytes in flight towards end d
 	closed [2]bool
+	// stalled[s]: writes from end s block (the reader at the other end is not
+	// draining: back-pressure) until the stall is lifted or an end closes.
+	stalled [2]bool
 	// Tap, if set, is called (with the wire lock held) for every write:
 	// from is the writing end.
 	Tap func(from int, b []byte)
@@ -65,6 +68,9 @@ func (e *WireEnd) Write(b []byte) (int, error) {
 	w := e.w
 	w.mu.Lock()
 	defer w.mu.Unlock()
+	for w.stalled[e.side] && !w.closed[e.side] && !w.closed[1-e.side] {
+		w.cond.Wait()
+	}
 	if w.closed[e.side] || w.closed[1-e.side] {
 		return 0, io.ErrClosedPipe
 	}
@@ -74,6 +80,14 @@ func (e *WireEnd) Write(b []byte) (int, error) {
 	w.buf[1-e.side] = append(w.buf[1-e.side], b...)
 	w.cond.Broadcast()
 	return len(b), nil
+}
+
+// SetStall makes writes from end side block (on) or proceed (off).
+func (w *Wire) SetStall(side int, on bool) {
+	w.mu.Lock()
+	w.stalled[side] = on
+	w.cond.Broadcast()
+	w.mu.Unlock()
 }
 
 // Close closes this end: its reads and writes fail, the other end reads EOF
